@@ -11,12 +11,31 @@ pub struct C11;
 
 const NFILES: usize = 3;
 
+fn layout(text: &str, l: u64) -> String {
+    match l % 3 {
+        0 => text.to_string(),
+        1 => super::c09::relayout(text),
+        _ => {
+            let all = super::c09::relayout(text);
+            // keep only the first changed position
+            match text.bytes().zip(all.bytes()).position(|(a, b)| a != b) {
+                Some(i) => {
+                    let mut b = text.as_bytes().to_vec();
+                    b[i] = b' ';
+                    String::from_utf8(b).unwrap_or_else(|_| text.to_string())
+                }
+                None => text.to_string(),
+            }
+        }
+    }
+}
+
 impl Property for C11 {
     fn id(&self) -> &'static str {
         "C11"
     }
     fn rule(&self) -> String {
-        format!("histories of 1..8 didOpen/didChange steps over three documents f0..f2 (the first step opens f0), texts drawn from {NVARIANTS} variants per file (every include subset, renamed declaration, includes moved, syntax error, type error, include of a missing file); the harness writes each text to disk before sending it (buffer = disk) and proceeds in lock-step (idle = all tasks ended, then a barrier request). Oracle after EVERY step: for every URI ever published, the last publication equals the diagnostics of a fresh ide-level analysis of the current files with root = last touched document (converted by the repository's own to_proto::diagnostic), or is empty if the URI is not in that workspace; versions per URI never decrease. distinct = digest of history; non-trivial = >=2 steps and some URI whose expected diagnostics changed between non-empty and empty")
+        format!("histories of 1..8 didOpen/didChange steps over three documents f0..f2 (the first step opens f0), texts drawn from {NVARIANTS} variants per file (every include subset, renamed declaration, includes moved, syntax error, type error, include of a missing file) x 3 line layouts of the same bytes (as written, every / the first line break after ';' or a closing brace turned into a space: offsets stay, lines move); the harness writes each text to disk before sending it (buffer = disk) and proceeds in lock-step (idle = all tasks ended, then a barrier request). Oracle after EVERY step: for every URI ever published, the last publication equals the diagnostics of a fresh ide-level analysis of the current files with root = last touched document (converted by the repository's own to_proto::diagnostic), or is empty if the URI is not in that workspace; versions per URI never decrease. distinct = digest of history; non-trivial = >=2 steps and some URI whose expected diagnostics changed between non-empty and empty")
     }
     fn families(&self, ctx: &Ctx) -> Vec<Family> {
         vec![
@@ -24,6 +43,19 @@ impl Property for C11 {
                 for v1 in 0..NVARIANTS {
                     for v2 in [0usize, 1, 3, 4, 6, 9, 12, 20] {
                         let ops = json!([[0, v1], [f, v2]]);
+                        if !emit(json!({"kind": "diag-history", "ops": ops})) {
+                            return;
+                        }
+                    }
+                }
+            }),
+            // the same text re-sent with a different line layout (same bytes, moved line breaks),
+            // for the root and for an included file
+            Family::new("relayouts", NFILES as u64, |f, _r, emit| {
+                for v in 0..NVARIANTS {
+                    for (l1, l2) in [(0, 1), (1, 0), (0, 2), (2, 1)] {
+                        // f0 variant 7 includes every other file
+                        let ops = if f == 0 { json!([[0, v, l1], [0, v, l2]]) } else { json!([[f, v, l1], [0, 7, 0], [f, v, l2], [0, 7, 1]]) };
                         if !emit(json!({"kind": "diag-history", "ops": ops})) {
                             return;
                         }
@@ -47,7 +79,7 @@ impl Property for C11 {
                     let n = 1 + rng.below(8);
                     let mut ops = vec![json!([0, rng.below(NVARIANTS)])];
                     for _ in 1..n {
-                        ops.push(json!([rng.below(NFILES), rng.below(NVARIANTS)]));
+                        ops.push(json!([rng.below(NFILES), rng.below(NVARIANTS), rng.weighted(&[3, 1, 1])]));
                     }
                     if !emit(json!({"kind": "diag-history", "ops": ops})) {
                         return;
@@ -77,7 +109,9 @@ impl Property for C11 {
                 break;
             };
             let name = format!("f{}.td", f as usize % NFILES);
-            let text = variant_text(f as usize % NFILES, v as usize % NVARIANTS);
+            // third component: line layout of the same bytes (0 as written, 1 every line break after
+            // `;`/`}` turned into a space, 2 only the first one): offsets stay, lines and columns move
+            let text = layout(&variant_text(f as usize % NFILES, v as usize % NVARIANTS), op[2].as_u64().unwrap_or(0));
             s.tw.write(&name, &text);
             texts.insert(name.clone(), text.clone());
             let burst = case["burst"].as_bool() == Some(true);
